@@ -100,12 +100,12 @@ func libWalkDetects(g *ref.Graph) bool {
 			for _, a := range r.AllOf {
 				if p := g.Types[a]; p != nil && !seen[a] {
 					seen[a] = true
-					out = append(out, mergedGroups(p, false, seen)...)
+					out = append(out, mergedGroups(p, g.OptTypes[a], seen)...)
 				}
 			}
 		}
 		for i := range n.Props {
-			req := true // the walk ignores KeysAreOptionalByDefault
+			req := !keysOpt
 			if v, ok := n.Props[i].Val.BoolRule("optional"); ok {
 				req = !v
 			}
@@ -115,9 +115,9 @@ func libWalkDetects(g *ref.Graph) bool {
 		}
 		return out
 	}
-	var detect func(n *ref.SNode, depth int) bool
-	detect = func(n *ref.SNode, depth int) bool {
-		for _, grp := range mergedGroups(n, false, map[string]bool{}) {
+	var detect func(n *ref.SNode, depth int, keysOpt bool) bool
+	detect = func(n *ref.SNode, depth int, keysOpt bool) bool {
+		for _, grp := range mergedGroups(n, keysOpt, map[string]bool{}) {
 			errs := 0
 			for _, name := range grp {
 				if visited[name] {
@@ -126,7 +126,7 @@ func libWalkDetects(g *ref.Graph) bool {
 				}
 				if depth == 0 && g.Types[name] != nil {
 					visited[name] = true
-					if detect(g.Types[name], 1) {
+					if detect(g.Types[name], 1, g.OptTypes[name]) {
 						errs++
 					}
 					delete(visited, name)
@@ -138,7 +138,7 @@ func libWalkDetects(g *ref.Graph) bool {
 		}
 		return false
 	}
-	return detect(g.Root, 0)
+	return detect(g.Root, 0, g.KeysOptional)
 }
 
 // allOfCycle: some type is its own (transitive) allOf parent. That is decided by a separate
@@ -386,11 +386,22 @@ func TestTypeGraphs(t *testing.T) {
 				gc.G.KeysOptional = false
 			}
 		}
+		// types that are themselves created with KeysAreOptionalByDefault: their unmarked properties
+		// are optional, so a cycle through one of them is no infinite recursion
+		if selfRoot == "" && rapid.IntRange(0, 3).Draw(t, "optTypes") == 0 {
+			gc.G.OptTypes = map[string]bool{}
+			for _, name := range gc.Order {
+				if gc.G.Types[name].Kind == ref.SObj && rapid.Bool().Draw(t, "optType") {
+					gc.G.OptTypes[name] = true
+				}
+			}
+			run.Label("types-with-optional-keys-by-default")
+		}
 		pg := gc.Print(nil)
 		sp := lib.Spec{Schema: pg.Schema, KeysOptional: gc.G.KeysOptional, SelfName: selfRoot}
 		for _, ty := range pg.Types {
 			if ty.Name != selfRoot {
-				sp.Types = append(sp.Types, lib.Named{Name: ty.Name, Text: ty.Text})
+				sp.Types = append(sp.Types, lib.Named{Name: ty.Name, Text: ty.Text, KeysOptional: gc.G.OptTypes[ty.Name]})
 			}
 		}
 		if selfRoot != "" {
